@@ -64,7 +64,7 @@ def parse_float_map(tok):
 class C13(Prop):
     id = "C13"
     lean_modules = ["Fan2go.Props.C13"]
-    fact_modules = ["Fan2go.Props.Trans", "Fan2go.Props.Trans2Keys", "Fan2go.Props.Trans3Fan"]
+    fact_modules = ["Fan2go.Props.Trans", "Fan2go.Props.Trans2Keys", "Fan2go.Props.Trans3Fan", "Fan2go.Props.Trans3FileFan"]
     rule = ("fans: real HwMonFan/FileFan/CmdFan values through fans.NewFan; data maps (sparse, non-monotonic, plateaus, all-zero, "
             "single point, fractional / negative / non-finite RPM) x the 8 configured/unconfigured combinations x neverStop x "
             "attachment and setter sequences; fanx: data maps over 6 keys x RPM in {0,0.5,1,300,300.9,1200} (exhaustive in the "
